@@ -95,14 +95,13 @@ open Fscm in
 compatible with the graph (hypotheses as in `cg_prob`, for the merged dict `outcomes | conditions`) -/
 theorem idcstar_zero_line3_sound (M : Model) (ν : BaseValues) (hν : ν.Distinct) (hM : Compatible M G) (hG : G.WF)
     (hdl : ∀ e ∈ G.di, e.1 ≠ e.2) (hbl : ∀ e ∈ G.bi, e.1 ≠ e.2) (outcomes conditions : Event)
-    (hev : EvOK (Event.ofList (outcomes ++ conditions))) (topo : List Name)
-    (htopo : G.topologicalSort = .ok topo) (hpf : ∀ v, ∀ p ∈ M.pa v, Before topo v p)
+    (hev : EvOK (Event.ofList (outcomes ++ conditions)))
     (hws : (ordf (extractInterventions (Event.ofList (outcomes ++ conditions)).keys)).Nodup)
     (hwne : ∀ w ∈ ordf (extractInterventions (Event.ofList (outcomes ++ conditions)).keys), w ≠ [])
     (hwcs : ∀ w ∈ ordf (extractInterventions (Event.ofList (outcomes ++ conditions)).keys), ConsistentSubs w) (g : MG Var)
     (h : makeCounterfactualGraph ordf G (Event.ofList (outcomes ++ conditions)) = .ok (g, none)) :
     probEvent M ν (Event.ofList (outcomes ++ conditions)) = 0 :=
-  (cg_prob M ν hν G hM hG hdl hbl ordf _ hev topo htopo hpf hws hwne hwcs).2 g h
+  (cg_prob M ν hν G hM hG hdl hbl ordf _ hev hws hwne hwcs).2 g h
 
 /-- more fuel never changes an answer that was reached -/
 theorem idcstar_fuel_mono (fuel k : Nat) (outcomes conditions : Event) (x : Expr)
